@@ -112,3 +112,18 @@ package federation
 //@   call PrepareQuery assert arg1 == schema && arg2 == query.SelectionSet && (query.Kind == "mutation" ==> schema == gqlSchema.Mutation) && (query.Kind == "query" ==> schema == gqlSchema.Query)
 //@ func ExecuteRequest$1
 //@   call Execute assert arg2 == schema && arg4 == query
+
+// ---- C09 (one type): every part of a type - input fields, fields, possible types, interfaces, enum values - is merged from
+// the two sides' own parts in the mode the caller asked for (never a fixed mode), and the merged type keeps name and kind.
+//@ func mergeTypes
+//@   call mergeInputFields assert arg0 == a.InputFields && arg1 == b.InputFields && arg2 == mode
+//@   call mergeFields assert arg0 == a.Fields && arg1 == b.Fields && arg2 == mode
+//@   call mergePossibleTypes assert arg0 == a.PossibleTypes && arg1 == b.PossibleTypes && arg2 == mode
+//@   call mergeInterfaces assert arg0 == a.Interfaces && arg1 == b.Interfaces && arg2 == mode
+//@   call mergeEnumValues assert arg0 == a.EnumValues && arg1 == b.EnumValues && arg2 == mode
+//@   ensures err == nil ==> result != nil && fresh(result)
+// merging builds a new list: the inputs - which a gateway keeps and merges again on the next refresh - are not written
+//@ func mergeEnumValues
+//@   call append#4 assert arg0 == merged && (merged == nil || fresh(merged))
+//@   call append#5 assert arg0 == merged && (merged == nil || fresh(merged))
+//@   loop 4 invariant merged == nil || fresh(merged)
